@@ -175,6 +175,20 @@ def check_fold(ctx, repo: Repo, pid: str):
     if amap is None and not maps:
         ctx.inconclusive("FOLD", f"{tag}.map", "construction of the antipode map not recognised", where)
 
+    # ---------------- an antipode index obtained with map.get(j) must be tested with `is not None`: index 0 is a valid antipode
+    if amap is not None:
+        got = {a_.targets[0].id: a_ for a_ in ast.walk(body) if isinstance(a_, ast.Assign) and len(a_.targets) == 1 and isinstance(a_.targets[0], ast.Name) and
+               isinstance(a_.value, ast.Call) and isinstance(a_.value.func, ast.Attribute) and a_.value.func.attr == "get" and
+               isinstance(a_.value.func.value, ast.Name) and a_.value.func.value.id == amap and len(a_.value.args) == 1}
+        for nm_, a_ in got.items():
+            for t_ in [n_ for n_ in ast.walk(body) if isinstance(n_, (ast.If, ast.IfExp, ast.While))]:
+                tests = [t_.test] + ([v_ for v_ in t_.test.values] if isinstance(t_.test, ast.BoolOp) else [])
+                if any(isinstance(x_, ast.Name) and x_.id == nm_ for x_ in tests):
+                    ctx.instance("TRUTH")
+                    ctx.violate("TRUTH", f"{tag}.truth.index", f"the antipode index `{nm_}` (from {amap}.get) is used as a truth value: index 0 is a valid "
+                                "antipode but counts as False, so entries whose antipodal column is column 0 are never folded (column 0 "
+                                "misses its opposing neighbours while row 0 has them: the folded matrix is not symmetric)", where, src(t_.test)[:120],
+                                witness=f"{amap}.get(j) == 0 for the cell opposite to cell 0")
     # ---------------- fold copy
     copies = []
     for st in ast.walk(body):
